@@ -236,20 +236,24 @@ Proof.
 Qed.
 
 (** * Sequences of registrations *)
-Inductive router_op := ROIndex (h : N) | RODefault (h : N) | ROAdd (p : str) (n : rnode).
+(** Handlers are [option N]: [None] is a nil handler. *)
+Inductive router_op :=
+| ROIndex (h : option N) | RODefault (h : option N)
+| ROAdd (p : str) (svc : option N) (dir : bool) (m : str).
 
 Definition router_apply (r : router) (op : router_op) : option (router * bool) :=
   match op with
   | ROIndex h => Some (set_index r h, true)
   | RODefault h => Some (set_default r h, true)
-  | ROAdd p n => router_add r p n
+  | ROAdd p svc dir m => router_add_svc r p svc dir m
   end.
 
 Definition rref_apply (R : rref) (op : router_op) : option (rref * bool) :=
   match op with
-  | ROIndex h => Some (RRef (Some h) (rr_miss R) (rr_regs R), true)
-  | RODefault h => Some (RRef (rr_index R) (Some h) (rr_regs R), true)
-  | ROAdd p n => ref_router_add R p n
+  | ROIndex h => Some (RRef h (rr_miss R) (rr_regs R), true)
+  | RODefault h => Some (RRef (rr_index R) h (rr_regs R), true)
+  | ROAdd p None _ _ => None
+  | ROAdd p (Some h) dir m => ref_router_add R p (RNode h dir m)
   end.
 
 (** A panicking registration (empty route) leaves the router as it was; the
@@ -280,7 +284,7 @@ Lemma rsim_apply r R op : rsim r R ->
   | Some (R', ok) => exists r', router_apply r op = Some (r', ok) /\ rsim r' R'
   end.
 Proof.
-  intros S. destruct op as [h|h|p n]; simpl.
+  intros S. destruct op as [h|h|p [h|] dir m]; simpl; auto.
   - eexists. split; [reflexivity|]. destruct S as (A & B & C). exact (conj eq_refl (conj B C)).
   - eexists. split; [reflexivity|]. destruct S as (A & B & C). exact (conj A (conj eq_refl C)).
   - apply rsim_add; auto.
